@@ -202,6 +202,15 @@ def cd(a: uint256, x: {arr_t}, b: uint256, i: {ityp}) -> (uint256, uint256, uint
 @view
 def imm(i: {ityp}) -> (uint256, uint256, uint256):
     return IM0, IM[i], IM1
+
+@external
+@view
+def sl(a: uint256, b: Bytes[40], c: uint256, start: uint256, length: uint256) -> (uint256, Bytes[40], uint256):
+    x: uint256 = a
+    m: Bytes[40] = b
+    y: uint256 = c
+    r: Bytes[40] = slice(m, start, length)
+    return x, r, y
 """
     if dyn:
         src += f"""
@@ -349,6 +358,26 @@ def part_canaries(ctx, cfgs):
                                     fail("immutable subscript read: wrong value or missing revert", f"imm({hex(x)})", r.out.hex() if r.ok else "revert")
                                     return n_cases, True
                             stats["ok" if ok_idx else "revert"] += 1
+                    # --- slice: start + length <= len(b) or revert (check_buffer_overflow_ir)
+                    if (ityp, dyn, transient) == ("uint256", False, False):
+                        for blen in (0, 1, 31, 32, 33, 40):
+                            body = bytes(rnd.randrange(1, 256) for _ in range(blen))
+                            grid = sorted(g for g in {0, 1, blen - 1, blen, blen + 1, 32, 40, 41, 2**255, 2**256 - 1, 2**256 - blen} if 0 <= g < 2**256)
+                            for st_ in grid:
+                                for ln_ in grid:
+                                    pad = body + b"\0" * (-blen % 32)
+                                    data = w(C0) + w(160) + w(C1) + w(st_) + w(ln_) + w(blen) + pad
+                                    r = ch.call(addr, method_id("sl(uint256,bytes,uint256,uint256,uint256)") + data)
+                                    exp_ok = st_ + ln_ <= blen
+                                    n_cases += 1
+                                    if exp_ok:
+                                        res = body[st_:st_ + ln_]
+                                        want = w(C0) + w(96) + w(C1) + w(len(res)) + res + b"\0" * (-len(res) % 32)
+                                    if r.ok != exp_ok or (r.ok and r.out != want):
+                                        ctx.violation("failing-input", "slice: out-of-bounds start/length accepted, in-bounds rejected, or wrong bytes",
+                                                      dict(base, call=f"sl(.., 0x{body.hex()}, .., {st_}, {ln_})", expected="ok" if exp_ok else "revert",
+                                                           observed=r.out.hex() if r.ok else "revert"))
+                                        return n_cases, True
                     # --- append / pop at the bound (storage, non-transient)
                     if dyn and not transient:
                         ch.call(addr, method_id("setup_short(uint256)") + w(0))
